@@ -301,7 +301,20 @@ func (e *Ev) evBuiltin(x *ast.CallExpr, name string) Val {
 			return VBuf{"bs_empty", "0"} // a *bytes.Buffer variable is modelled as the buffer itself
 		}
 		e.unsupp(x, "new of %s", exprString(x.Args[0]))
-	case "copy", "delete", "cap":
+	case "delete":
+		if m, ok := e.ev(x.Args[0]).(VMapRef); ok && !e.contract {
+			// delete(m, k) on a map object of the heap: k leaves the domain of m
+			ks, _ := mapSorts(m)
+			kt := e.mapKeyTerm(m, e.ev(x.Args[1]), x)
+			dk := mapKeyName(m) + "#dom"
+			dsort := arrSort("(Array " + ks + " Bool)")
+			dom := e.fx.hget(e.st, dk, dsort)
+			e.safety("nil", "nilderef", x.Pos(), "true", "delete on a nil map is a no-op")
+			e.fx.hset(e.st, dk, e.fx.name(dsort, "hd", fmt.Sprintf("(store %s %s (store (select %s %s) %s false))", dom, m.T, dom, m.T, kt)))
+			return VTuple{}
+		}
+		e.unsupp(x, "builtin %s is not modelled", name)
+	case "copy", "cap":
 		e.unsupp(x, "builtin %s is not modelled", name)
 	}
 	e.unsupp(x, "builtin %s", name)
